@@ -773,6 +773,10 @@ func (bb *bufferedBatchMessage) MarshalJSON() ([]byte, error) {
 func (bb *bufferedBatchMessage) UnmarshalJSON(data []byte) error {
 	b := new(bufferedBatchMessageJSON)
 	json.Unmarshal(data, &b)
+	if b == nil {
+		// JSON null
+		return errors.New("invalid batch message: null")
+	}
 	bb.begin.SetName(b.Name)
 	bb.begin.SetTags(b.Tags)
 	dims := bb.begin.Dimensions()
